@@ -301,6 +301,9 @@ def svd_truncated(
 
             # translate to total number of singular values to keep
             n_chi_all = ar.do("count_nonzero", cond, like=backend)
+            # always keep at least the largest value, n.b. `sall[-0]` would
+            # wrap around to the *smallest* value and keep everything
+            n_chi_all = max(int(n_chi_all), 1)
             # and then to an absolute cutoff value
             abs_cutoff = sall[-n_chi_all]
 
